@@ -7,20 +7,20 @@ the emitted items.  Core Lean only.
 namespace StubSig
 open StubDefault
 
-variable (sl : Nat → Nat) (el : Ident → Bool)
+variable (c : DCfg) (sl : Nat → Nat) (el : Ident → Bool)
 
 /-- the ArgSigs of a run of arguments starting at index `i` -/
 def itemsFrom (i : Nat) : List Arg → List Item
   | [] => []
-  | a :: r => argItem sl (i == 0) a :: itemsFrom (i + 1) r
+  | a :: r => argItem c sl (i == 0) a :: itemsFrom (i + 1) r
 
-theorem itemsFrom_length (i : Nat) (l : List Arg) : (itemsFrom sl i l).length = l.length := by
+theorem itemsFrom_length (i : Nat) (l : List Arg) : (itemsFrom c sl i l).length = l.length := by
   induction l generalizing i with
   | nil => rfl
   | cons a r ih => simp [itemsFrom, ih]
 
 theorem itemsFrom_append (i : Nat) (l1 l2 : List Arg) :
-    itemsFrom sl i (l1 ++ l2) = itemsFrom sl i l1 ++ itemsFrom sl (i + l1.length) l2 := by
+    itemsFrom c sl i (l1 ++ l2) = itemsFrom c sl i l1 ++ itemsFrom c sl (i + l1.length) l2 := by
   induction l1 generalizing i with
   | nil => simp [itemsFrom]
   | cons a r ih =>
@@ -36,8 +36,8 @@ theorem countPO_append (l1 l2 : List Arg) : countPO (l1 ++ l2) = countPO l1 + co
 /-! ### the emit loop -/
 
 theorem fold_nonNamed (seg : List Arg) (h : ∀ a ∈ seg, a.kind ≠ .named) (st : ESt) :
-    seg.foldl (estep sl false) st =
-      { out := st.out ++ itemsFrom sl st.idx seg, cnt := st.cnt + countPO seg, idx := st.idx + seg.length } := by
+    seg.foldl (estep c sl false false) st =
+      { out := st.out ++ itemsFrom c sl st.idx seg, cnt := st.cnt + countPO seg, idx := st.idx + seg.length } := by
   induction seg generalizing st with
   | nil => simp [itemsFrom, countPO]
   | cons a r ih =>
@@ -56,16 +56,16 @@ theorem any_starred_append (l : List Item) (x : Item) (h : l.any Item.starred = 
 
 theorem fold_named_starred (seg : List Arg) (h : ∀ a ∈ seg, a.kind = .named) (st : ESt)
     (hs : st.out.any Item.starred = true) :
-    seg.foldl (estep sl false) st =
-      { out := st.out ++ itemsFrom sl st.idx seg, cnt := st.cnt + countPO seg, idx := st.idx + seg.length } := by
+    seg.foldl (estep c sl false false) st =
+      { out := st.out ++ itemsFrom c sl st.idx seg, cnt := st.cnt + countPO seg, idx := st.idx + seg.length } := by
   induction seg generalizing st with
   | nil => simp [itemsFrom, countPO]
   | cons a r ih =>
     have ha : a.kind = .named := h a (by simp)
     have hr : ∀ x ∈ r, x.kind = .named := fun x hx => h x (by simp [hx])
     rw [List.foldl_cons]
-    have hstep : estep sl false st a =
-        { out := st.out ++ [argItem sl (st.idx == 0) a], cnt := if a.posOnly then st.cnt + 1 else st.cnt,
+    have hstep : estep c sl false false st a =
+        { out := st.out ++ [argItem c sl (st.idx == 0) a], cnt := if a.posOnly then st.cnt + 1 else st.cnt,
           idx := st.idx + 1 } := by
       simp [estep, ha, hs]
     rw [hstep, ih hr]
@@ -75,17 +75,17 @@ theorem fold_named_starred (seg : List Arg) (h : ∀ a ∈ seg, a.kind = .named)
 
 theorem fold_named_fresh (a : Arg) (r : List Arg) (h : ∀ x ∈ a :: r, x.kind = .named) (st : ESt)
     (hs : st.out.any Item.starred = false) :
-    (a :: r).foldl (estep sl false) st =
-      { out := st.out ++ Item.bareStar :: itemsFrom sl st.idx (a :: r), cnt := st.cnt + countPO (a :: r),
+    (a :: r).foldl (estep c sl false false) st =
+      { out := st.out ++ Item.bareStar :: itemsFrom c sl st.idx (a :: r), cnt := st.cnt + countPO (a :: r),
         idx := st.idx + (a :: r).length } := by
   have ha : a.kind = .named := h a (by simp)
   have hr : ∀ x ∈ r, x.kind = .named := fun x hx => h x (by simp [hx])
   rw [List.foldl_cons]
-  have hstep : estep sl false st a =
-      { out := st.out ++ [Item.bareStar] ++ [argItem sl (st.idx == 0) a],
+  have hstep : estep c sl false false st a =
+      { out := st.out ++ [Item.bareStar] ++ [argItem c sl (st.idx == 0) a],
         cnt := if a.posOnly then st.cnt + 1 else st.cnt, idx := st.idx + 1 } := by
     simp [estep, ha, hs]
-  rw [hstep, fold_named_starred sl r hr]
+  rw [hstep, fold_named_starred c sl r hr]
   · simp only [itemsFrom, countPO, List.filter_cons, List.append_assoc, List.singleton_append, List.length_cons,
       List.cons_append, List.nil_append]
     cases a.posOnly <;> simp <;> omega
@@ -94,7 +94,7 @@ theorem fold_named_fresh (a : Arg) (r : List Arg) (h : ∀ x ∈ a :: r, x.kind 
 /-! ### what `argItem` looks like per kind -/
 
 theorem argItem_param (f : Bool) (a : Arg) (h : a.kind = .pos ∨ a.kind = .named) :
-    ∃ ann d, argItem sl f a = .param a.name ann d ∧ d.isSome = a.dflt.isSome := by
+    ∃ ann d, argItem c sl f a = .param a.name ann d ∧ d.isSome = a.dflt.isSome := by
   unfold argItem
   cases hd : a.dflt with
   | some d => exact ⟨_, _, rfl, rfl⟩
@@ -103,30 +103,30 @@ theorem argItem_param (f : Bool) (a : Arg) (h : a.kind = .pos ∨ a.kind = .name
 
 /-- … and when the initializer is `good`, the rendered default is well-formed text -/
 theorem argItem_param_ok (f : Bool) (a : Arg) (h : a.kind = .pos ∨ a.kind = .named)
-    (hg : ∀ d ∈ a.dflt, d.good = true) :
-    ∃ ann d, argItem sl f a = .param a.name ann d ∧ d.isSome = a.dflt.isSome ∧ dfltLexOk d = true := by
+    (hg : ∀ d ∈ a.dflt, d.good c = true) :
+    ∃ ann d, argItem c sl f a = .param a.name ann d ∧ d.isSome = a.dflt.isSome ∧ dfltLexOk d = true := by
   unfold argItem
   cases hd : a.dflt with
-  | some d => exact ⟨_, _, rfl, rfl, defaultToks_lexOk sl d (hg d (by simp [hd]))⟩
+  | some d => exact ⟨_, _, rfl, rfl, defaultToks_lexOk c sl d (hg d (by simp [hd]))⟩
   | none =>
     rcases h with h | h <;> simp only [h] <;> exact ⟨_, _, rfl, rfl, rfl⟩
 
-def GoodArgs (l : List Arg) : Prop := ∀ a ∈ l, ∀ d ∈ a.dflt, d.good = true
+def GoodArgs (l : List Arg) : Prop := ∀ a ∈ l, ∀ d ∈ a.dflt, d.good c = true
 
 theorem argItem_star (f : Bool) (a : Arg) (hk : a.kind = .star) (hd : a.dflt = none) :
-    ∃ ann, argItem sl f a = .vararg a.name ann := by
+    ∃ ann, argItem c sl f a = .vararg a.name ann := by
   unfold argItem; simp only [hd, hk]; exact ⟨_, rfl⟩
 
 theorem argItem_star2 (f : Bool) (a : Arg) (hk : a.kind = .star2) (hd : a.dflt = none) :
-    ∃ ann, argItem sl f a = .kwarg a.name ann := by
+    ∃ ann, argItem c sl f a = .kwarg a.name ann := by
   unfold argItem; simp only [hd, hk]; exact ⟨_, rfl⟩
 
 theorem itemsFrom_params_not_starred (i : Nat) (l : List Arg) (h : ∀ a ∈ l, a.kind = .pos ∨ a.kind = .named) :
-    (itemsFrom sl i l).any Item.starred = false := by
+    (itemsFrom c sl i l).any Item.starred = false := by
   induction l generalizing i with
   | nil => rfl
   | cons a r ih =>
-    obtain ⟨ann, d, he, _⟩ := argItem_param sl (i == 0) a (h a (by simp))
+    obtain ⟨ann, d, he, _⟩ := argItem_param c sl (i == 0) a (h a (by simp))
     simp only [itemsFrom, List.any_cons, he, Item.starred, Bool.false_or]
     exact ih _ (fun x hx => h x (by simp [hx]))
 
@@ -152,15 +152,15 @@ theorem mono_append (sd : Bool) (l1 l2 : List Bool) :
 
 /-- positional parameters, before or after `/` -/
 theorem run_pos (seg : List Arg) (hk : ∀ a ∈ seg, a.kind = .pos) (i : Nat) (ph : Phase) (sd nk : Bool)
-    (acc : List Summ) (hph : ph = .pre ∨ ph = .post) (hg : GoodArgs seg)
+    (acc : List Summ) (hph : ph = .pre ∨ ph = .post) (hg : GoodArgs c seg)
     (hm : mono sd (seg.map fun a => a.dflt.isSome) = true) :
-    run { ph := ph, sd := sd, nk := nk, acc := acc } (itemsFrom sl i seg) =
+    run { ph := ph, sd := sd, nk := nk, acc := acc } (itemsFrom c sl i seg) =
       some { ph := ph, sd := sd || seg.any (fun a => a.dflt.isSome), nk := nk,
              acc := acc ++ seg.map fun a => (a.name, PKind.pos, a.dflt.isSome) } := by
   induction seg generalizing i sd acc with
   | nil => simp [itemsFrom, run]
   | cons a r ih =>
-    obtain ⟨ann, d, he, hd, hok⟩ := argItem_param_ok sl (i == 0) a (Or.inl (hk a (by simp))) (hg a (by simp))
+    obtain ⟨ann, d, he, hd, hok⟩ := argItem_param_ok c sl (i == 0) a (Or.inl (hk a (by simp))) (hg a (by simp))
     simp only [List.map_cons, mono, Bool.and_eq_true] at hm
     have hstep : pstep { ph := ph, sd := sd, nk := nk, acc := acc } (.param a.name ann d) =
         some { ph := ph, sd := sd || a.dflt.isSome, nk := nk, acc := acc ++ [(a.name, PKind.pos, a.dflt.isSome)] } := by
@@ -174,15 +174,15 @@ theorem run_pos (seg : List Arg) (hk : ∀ a ∈ seg, a.kind = .pos) (i : Nat) (
     simp [Bool.or_assoc, List.append_assoc]
 
 /-- keyword-only parameters, after `*` -/
-theorem run_kw (seg : List Arg) (hk : ∀ a ∈ seg, a.kind = .named) (hg : GoodArgs seg) (i : Nat) (sd nk : Bool)
+theorem run_kw (seg : List Arg) (hk : ∀ a ∈ seg, a.kind = .named) (hg : GoodArgs c seg) (i : Nat) (sd nk : Bool)
     (acc : List Summ) :
-    run { ph := .kw, sd := sd, nk := nk, acc := acc } (itemsFrom sl i seg) =
+    run { ph := .kw, sd := sd, nk := nk, acc := acc } (itemsFrom c sl i seg) =
       some { ph := .kw, sd := sd, nk := nk && seg.isEmpty,
              acc := acc ++ seg.map fun a => (a.name, PKind.kwOnly, a.dflt.isSome) } := by
   induction seg generalizing i nk acc with
   | nil => simp [itemsFrom, run]
   | cons a r ih =>
-    obtain ⟨ann, d, he, hd, hok⟩ := argItem_param_ok sl (i == 0) a (Or.inr (hk a (by simp))) (hg a (by simp))
+    obtain ⟨ann, d, he, hd, hok⟩ := argItem_param_ok c sl (i == 0) a (Or.inr (hk a (by simp))) (hg a (by simp))
     simp only [itemsFrom, run, he, pstep, hok, Bool.not_true, Bool.false_eq_true, ↓reduceIte, Option.bind_some]
     rw [ih (fun x hx => hk x (by simp [hx])) (fun x hx => hg x (by simp [hx]))]
     simp [hd, List.append_assoc]
@@ -204,10 +204,10 @@ def PySig.starItems (s : PySig) : List Item := if s.va.isNone && !s.kw.isEmpty t
 
 /-- the emitted parameter list, written along the grammar's production -/
 def PySig.shape (s : PySig) : List Item :=
-  itemsFrom sl 0 (s.aPo el) ++ (if s.po.isEmpty then [] else [Item.slash]) ++
-  itemsFrom sl s.po.length (s.aPp el) ++ itemsFrom sl (s.po.length + s.pp.length) (s.aVa el) ++ s.starItems ++
-  itemsFrom sl (s.po.length + s.pp.length + (s.aVa el).length) (s.aKw el) ++
-  itemsFrom sl (s.po.length + s.pp.length + (s.aVa el).length + s.kw.length) (s.aKa el)
+  itemsFrom c sl 0 (s.aPo el) ++ (if s.po.isEmpty then [] else [Item.slash]) ++
+  itemsFrom c sl s.po.length (s.aPp el) ++ itemsFrom c sl (s.po.length + s.pp.length) (s.aVa el) ++ s.starItems ++
+  itemsFrom c sl (s.po.length + s.pp.length + (s.aVa el).length) (s.aKw el) ++
+  itemsFrom c sl (s.po.length + s.pp.length + (s.aVa el).length + s.kw.length) (s.aKa el)
 
 theorem countPO_aPo (s : PySig) : countPO (s.aPo el) = s.po.length := by
   simp [countPO, PySig.aPo, mkArgE, List.filter_map, Function.comp_def]
@@ -230,7 +230,7 @@ theorem countPO_v (o : Option VParam) (k : AKind) (h : ∀ p ∈ o, el p.name = 
   | some v => have := h v rfl; simp [countPO, mkVArgE, this]
 
 /-- The loop of `_get_func_args` followed by the `/` insertion produces exactly the grammar-shaped list. -/
-theorem emit_shape (s : PySig) (hne : s.NoElideE el) : emitArgs sl false (s.toMypyE el) = s.shape sl el := by
+theorem emit_shape (s : PySig) (hne : s.NoElideE el) : emitArgs c sl false false (s.toMypyE el) = s.shape c sl el := by
   obtain ⟨hpp, hva, hkw, hka⟩ := hne
   have hsplit : s.toMypyE el = ((s.aPo el) ++ (s.aPp el) ++ (s.aVa el)) ++ (s.aKw el) ++ (s.aKa el) := by
     simp [PySig.toMypyE, PySig.aPo, PySig.aPp, PySig.aVa, PySig.aKw, PySig.aKa]
@@ -250,12 +250,12 @@ theorem emit_shape (s : PySig) (hne : s.NoElideE el) : emitArgs sl false (s.toMy
   have hcntkw : countPO (s.aKw el) = 0 := countPO_noElide el s.kw .named hkw
   have hcntka : countPO (s.aKa el) = 0 := countPO_v el s.ka .star2 hka
   -- the state after the three non-keyword segments
-  have hst1 := fold_nonNamed sl ((s.aPo el) ++ (s.aPp el) ++ (s.aVa el)) h1 { out := [], cnt := 0, idx := 0 }
+  have hst1 := fold_nonNamed c sl ((s.aPo el) ++ (s.aPp el) ++ (s.aVa el)) h1 { out := [], cnt := 0, idx := 0 }
   simp only [List.nil_append, Nat.zero_add, hcnt] at hst1
   -- starred-ness of what has been collected so far
-  have hstar : (itemsFrom sl 0 ((s.aPo el) ++ (s.aPp el) ++ (s.aVa el))).any Item.starred = s.va.isSome := by
+  have hstar : (itemsFrom c sl 0 ((s.aPo el) ++ (s.aPp el) ++ (s.aVa el))).any Item.starred = s.va.isSome := by
     rw [itemsFrom_append, List.any_append]
-    have hp : (itemsFrom sl 0 ((s.aPo el) ++ (s.aPp el))).any Item.starred = false := by
+    have hp : (itemsFrom c sl 0 ((s.aPo el) ++ (s.aPp el))).any Item.starred = false := by
       apply itemsFrom_params_not_starred
       intro a ha
       simp only [PySig.aPo, PySig.aPp, List.mem_append, List.mem_map] at ha
@@ -264,14 +264,14 @@ theorem emit_shape (s : PySig) (hne : s.NoElideE el) : emitArgs sl false (s.toMy
     cases hv : s.va with
     | none => simp [PySig.aVa, hv, itemsFrom]
     | some v =>
-      have he : ∀ f, (argItem sl f (mkVArgE el .star v)).starred = true := by
-        intro f; obtain ⟨ann, he⟩ := argItem_star sl f (mkVArgE el .star v) rfl rfl; rw [he]; rfl
+      have he : ∀ f, (argItem c sl f (mkVArgE el .star v)).starred = true := by
+        intro f; obtain ⟨ann, he⟩ := argItem_star c sl f (mkVArgE el .star v) rfl rfl; rw [he]; rfl
       simp [PySig.aVa, hv, itemsFrom, he]
   -- the keyword-only segment
-  have hst2 : ((s.aKw el)).foldl (estep sl false)
-        { out := itemsFrom sl 0 ((s.aPo el) ++ (s.aPp el) ++ (s.aVa el)), cnt := s.po.length, idx := ((s.aPo el) ++ (s.aPp el) ++ (s.aVa el)).length } =
-      { out := itemsFrom sl 0 ((s.aPo el) ++ (s.aPp el) ++ (s.aVa el)) ++ s.starItems ++
-                 itemsFrom sl ((s.aPo el) ++ (s.aPp el) ++ (s.aVa el)).length (s.aKw el),
+  have hst2 : ((s.aKw el)).foldl (estep c sl false false)
+        { out := itemsFrom c sl 0 ((s.aPo el) ++ (s.aPp el) ++ (s.aVa el)), cnt := s.po.length, idx := ((s.aPo el) ++ (s.aPp el) ++ (s.aVa el)).length } =
+      { out := itemsFrom c sl 0 ((s.aPo el) ++ (s.aPp el) ++ (s.aVa el)) ++ s.starItems ++
+                 itemsFrom c sl ((s.aPo el) ++ (s.aPp el) ++ (s.aVa el)).length (s.aKw el),
         cnt := s.po.length, idx := ((s.aPo el) ++ (s.aPp el) ++ (s.aVa el)).length + (s.aKw el).length } := by
     cases hk : (s.aKw el) with
     | nil =>
@@ -285,14 +285,14 @@ theorem emit_shape (s : PySig) (hne : s.NoElideE el) : emitArgs sl false (s.toMy
       rw [hk] at hkwk hcntkw
       cases hv : s.va with
       | none =>
-        rw [fold_named_fresh sl a r hkwk _ (by rw [hstar, hv]; rfl)]
+        rw [fold_named_fresh c sl a r hkwk _ (by rw [hstar, hv]; rfl)]
         simp [PySig.starItems, hv, hkne, hcntkw]
       | some v =>
-        rw [fold_named_starred sl (a :: r) hkwk _ (by rw [hstar, hv]; rfl)]
+        rw [fold_named_starred c sl (a :: r) hkwk _ (by rw [hstar, hv]; rfl)]
         simp [PySig.starItems, hv, hcntkw]
-  have hst3 := fold_nonNamed sl (s.aKa el) hkak
-    { out := itemsFrom sl 0 ((s.aPo el) ++ (s.aPp el) ++ (s.aVa el)) ++ s.starItems ++
-               itemsFrom sl ((s.aPo el) ++ (s.aPp el) ++ (s.aVa el)).length (s.aKw el),
+  have hst3 := fold_nonNamed c sl (s.aKa el) hkak
+    { out := itemsFrom c sl 0 ((s.aPo el) ++ (s.aPp el) ++ (s.aVa el)) ++ s.starItems ++
+               itemsFrom c sl ((s.aPo el) ++ (s.aPp el) ++ (s.aVa el)).length (s.aKw el),
       cnt := s.po.length, idx := ((s.aPo el) ++ (s.aPp el) ++ (s.aVa el)).length + (s.aKw el).length }
   simp only [hcntka, Nat.add_zero] at hst3
   have hlen : ((s.aPo el) ++ (s.aPp el) ++ (s.aVa el)).length = s.po.length + s.pp.length + (s.aVa el).length := by
@@ -302,7 +302,7 @@ theorem emit_shape (s : PySig) (hne : s.NoElideE el) : emitArgs sl false (s.toMy
   rw [hsplit, List.foldl_append, List.foldl_append, hst1, hst2, hst3]
   simp only [hlen, hlenkw]
   rw [itemsFrom_append, itemsFrom_append]
-  have hpolen : (itemsFrom sl 0 (s.aPo el)).length = s.po.length := by
+  have hpolen : (itemsFrom c sl 0 (s.aPo el)).length = s.po.length := by
     rw [itemsFrom_length]; simp [PySig.aPo]
   have hapolen : (s.aPo el).length = s.po.length := by simp [PySig.aPo]
   have happlen : (s.aPp el).length = s.pp.length := by simp [PySig.aPp]
@@ -324,9 +324,9 @@ theorem aPp_hasD (s : PySig) : ((s.aPp el).map fun a => a.dflt.isSome) = s.pp.ma
   simp [PySig.aPp, mkArgE, PParam.hasD, Function.comp_def]
 
 /-- parsing the positional part of the shape -/
-theorem run_positional (s : PySig) (hd : s.DefaultsOk) (hgd : s.GoodDefaults) :
-    run PSt.init (itemsFrom sl 0 (s.aPo el) ++ (if s.po.isEmpty then [] else [Item.slash]) ++
-        itemsFrom sl s.po.length (s.aPp el)) =
+theorem run_positional (s : PySig) (hd : s.DefaultsOk) (hgd : s.GoodDefaults c) :
+    run PSt.init (itemsFrom c sl 0 (s.aPo el) ++ (if s.po.isEmpty then [] else [Item.slash]) ++
+        itemsFrom c sl s.po.length (s.aPp el)) =
       some { ph := if s.po.isEmpty then .pre else .post, sd := (s.po ++ s.pp).any PParam.hasD, nk := false,
              acc := s.po.map (fun p => (p.name, PKind.posOnly, p.hasD)) ++
                     s.pp.map (fun p => (p.name, PKind.pos, p.hasD)) } := by
@@ -342,11 +342,11 @@ theorem run_positional (s : PySig) (hd : s.DefaultsOk) (hgd : s.GoodDefaults) :
     simp [PySig.aPo, mkArgE, List.any_map, Function.comp_def, hfun]
   have hanyPp : ((s.aPp el).any fun a => a.dflt.isSome) = s.pp.any PParam.hasD := by
     simp [PySig.aPp, mkArgE, List.any_map, Function.comp_def, hfun]
-  have hgpo : GoodArgs (s.aPo el) := by
+  have hgpo : GoodArgs c (s.aPo el) := by
     intro a ha d hdm
     simp only [PySig.aPo, List.mem_map] at ha; obtain ⟨p, hp, rfl⟩ := ha
     exact hgd p (by simp [hp]) d hdm
-  have hgpp : GoodArgs (s.aPp el) := by
+  have hgpp : GoodArgs c (s.aPp el) := by
     intro a ha d hdm
     simp only [PySig.aPp, List.mem_map] at ha; obtain ⟨p, hp, rfl⟩ := ha
     exact hgd p (by simp [hp]) d hdm
@@ -360,27 +360,27 @@ theorem run_positional (s : PySig) (hd : s.DefaultsOk) (hgd : s.GoodDefaults) :
     simp [PySig.aPp, mkArgE, PParam.hasD, Function.comp_def]
   rw [run_append, run_append]
   rw [show PSt.init = { ph := .pre, sd := false, nk := false, acc := [] } from rfl]
-  rw [run_pos sl (s.aPo el) hkpo 0 .pre false false [] (Or.inl rfl) hgpo (by rw [aPo_hasD]; exact hm1)]
+  rw [run_pos c sl (s.aPo el) hkpo 0 .pre false false [] (Or.inl rfl) hgpo (by rw [aPo_hasD]; exact hm1)]
   simp only [Option.bind_some, Bool.false_or, List.nil_append, hanyPo, haccPo]
   rw [hanyId] at hm2
   cases hpo : s.po with
   | nil =>
     simp only [List.isEmpty_nil, ↓reduceIte, run, Option.bind_some, List.any_nil, List.map_nil, List.length_nil]
     rw [hpo] at hm2
-    rw [run_pos sl (s.aPp el) hkpp 0 .pre false false [] (Or.inl rfl) hgpp (by rw [aPp_hasD]; simpa using hm2)]
+    rw [run_pos c sl (s.aPp el) hkpp 0 .pre false false [] (Or.inl rfl) hgpp (by rw [aPp_hasD]; simpa using hm2)]
     simp [hanyPp, haccPp]
   | cons p r =>
     rw [hpo] at hm2
     simp only [List.isEmpty_cons, Bool.false_eq_true, ↓reduceIte, run, pstep, List.map_cons, List.isEmpty_cons,
       Option.bind_some]
-    rw [run_pos sl (s.aPp el) hkpp _ .post _ false _ (Or.inr rfl) hgpp (by rw [aPp_hasD]; exact hm2)]
+    rw [run_pos c sl (s.aPp el) hkpp _ .post _ false _ (Or.inr rfl) hgpp (by rw [aPp_hasD]; exact hm2)]
     simp [hanyPp, haccPp, toPosOnly, Function.comp_def, Bool.or_assoc]
 
 /-- parsing what follows the positional part -/
-theorem run_tail (s : PySig) (hgd : s.GoodDefaults) (i j k : Nat) (ph : Phase) (sd : Bool) (acc : List Summ)
+theorem run_tail (s : PySig) (hgd : s.GoodDefaults c) (i j k : Nat) (ph : Phase) (sd : Bool) (acc : List Summ)
     (hph : ph = .pre ∨ ph = .post) :
     ∃ st', run { ph := ph, sd := sd, nk := false, acc := acc }
-        (itemsFrom sl i (s.aVa el) ++ s.starItems ++ itemsFrom sl j (s.aKw el) ++ itemsFrom sl k (s.aKa el)) = some st' ∧
+        (itemsFrom c sl i (s.aVa el) ++ s.starItems ++ itemsFrom c sl j (s.aKw el) ++ itemsFrom c sl k (s.aKa el)) = some st' ∧
       st'.nk = false ∧
       st'.acc = acc ++ s.va.toList.map (fun p => (p.name, PKind.varArg, false)) ++
                 s.kw.map (fun p => (p.name, PKind.kwOnly, p.hasD)) ++
@@ -391,38 +391,38 @@ theorem run_tail (s : PySig) (hgd : s.GoodDefaults) (i j k : Nat) (ph : Phase) (
       s.kw.map fun p => (p.name, PKind.kwOnly, p.hasD) := by
     simp [PySig.aKw, mkArgE, PParam.hasD, Function.comp_def]
   have hemp : (s.aKw el).isEmpty = s.kw.isEmpty := by simp [PySig.aKw]
-  have hgkw : GoodArgs (s.aKw el) := by
+  have hgkw : GoodArgs c (s.aKw el) := by
     intro a ha d hdm
     simp only [PySig.aKw, List.mem_map] at ha; obtain ⟨p, hp, rfl⟩ := ha
     exact hgd p (by simp [hp]) d hdm
   -- the `**kwargs` step, from any phase but `done`, with no pending bare star
   have hka : ∀ (ph' : Phase) (acc' : List Summ), ph' ≠ .done →
-      ∃ st', run { ph := ph', sd := sd, nk := false, acc := acc' } (itemsFrom sl k (s.aKa el)) = some st' ∧
+      ∃ st', run { ph := ph', sd := sd, nk := false, acc := acc' } (itemsFrom c sl k (s.aKa el)) = some st' ∧
         st'.nk = false ∧ st'.acc = acc' ++ s.ka.toList.map (fun p => (p.name, PKind.kwArg, false)) := by
     intro ph' acc' hne
     cases hk : s.ka with
     | none => exact ⟨{ ph := ph', sd := sd, nk := false, acc := acc' }, by simp [PySig.aKa, hk, itemsFrom, run], rfl, by simp⟩
     | some v =>
-      obtain ⟨ann, he⟩ := argItem_star2 sl (k == 0) (mkVArgE el .star2 v) rfl rfl
-      have he' : argItem sl (k == 0) (mkVArgE el .star2 v) = .kwarg v.name ann := he
+      obtain ⟨ann, he⟩ := argItem_star2 c sl (k == 0) (mkVArgE el .star2 v) rfl rfl
+      have he' : argItem c sl (k == 0) (mkVArgE el .star2 v) = .kwarg v.name ann := he
       refine ⟨{ ph := .done, sd := sd, nk := false, acc := acc' ++ [(v.name, PKind.kwArg, false)] }, ?_, rfl, by simp⟩
       cases ph' <;> simp_all [PySig.aKa, itemsFrom, run, pstep]
   rw [run_append, run_append, run_append]
   cases hv : s.va with
   | some v =>
-    obtain ⟨ann, he⟩ := argItem_star sl (i == 0) (mkVArgE el .star v) rfl rfl
-    have he' : argItem sl (i == 0) (mkVArgE el .star v) = .vararg v.name ann := he
-    have h1 : run { ph := ph, sd := sd, nk := false, acc := acc } (itemsFrom sl i (s.aVa el)) =
+    obtain ⟨ann, he⟩ := argItem_star c sl (i == 0) (mkVArgE el .star v) rfl rfl
+    have he' : argItem c sl (i == 0) (mkVArgE el .star v) = .vararg v.name ann := he
+    have h1 : run { ph := ph, sd := sd, nk := false, acc := acc } (itemsFrom c sl i (s.aVa el)) =
         some { ph := .kw, sd := sd, nk := false, acc := acc ++ [(v.name, PKind.varArg, false)] } := by
       rcases hph with rfl | rfl <;> simp [PySig.aVa, hv, itemsFrom, run, he', pstep]
     have h2 : s.starItems = [] := by simp [PySig.starItems, hv]
     rw [h1, h2]
-    simp only [Option.bind_some, run, run_kw sl (s.aKw el) hkw hgkw, Bool.false_and, hacckw]
+    simp only [Option.bind_some, run, run_kw c sl (s.aKw el) hkw hgkw, Bool.false_and, hacckw]
     obtain ⟨st', hr, hn, ha⟩ := hka .kw (acc ++ [(v.name, PKind.varArg, false)] ++
       s.kw.map fun p => (p.name, PKind.kwOnly, p.hasD)) (by simp)
     exact ⟨st', hr, hn, by simp [ha]⟩
   | none =>
-    have h1 : run { ph := ph, sd := sd, nk := false, acc := acc } (itemsFrom sl i (s.aVa el)) =
+    have h1 : run { ph := ph, sd := sd, nk := false, acc := acc } (itemsFrom c sl i (s.aVa el)) =
         some { ph := ph, sd := sd, nk := false, acc := acc } := by simp [PySig.aVa, hv, itemsFrom, run]
     rw [h1]
     simp only [Option.bind_some]
@@ -441,18 +441,18 @@ theorem run_tail (s : PySig) (hgd : s.GoodDefaults) (i j k : Nat) (ph : Phase) (
         rcases hph with rfl | rfl <;> simp [run, pstep]
       have h4 : (s.aKw el).isEmpty = false := by rw [hemp, hq]; rfl
       rw [h2, h3]
-      simp only [Option.bind_some, run_kw sl (s.aKw el) hkw hgkw, h4, Bool.and_false, hacckw]
+      simp only [Option.bind_some, run_kw c sl (s.aKw el) hkw hgkw, h4, Bool.and_false, hacckw]
       rw [← hq]
       obtain ⟨st', hr, hn, ha⟩ := hka .kw (acc ++ s.kw.map fun p => (p.name, PKind.kwOnly, p.hasD)) (by simp)
       exact ⟨st', hr, hn, by simp [ha]⟩
 
 theorem itemsFrom_params (i : Nat) (l : List Arg) (h : ∀ a ∈ l, a.kind = .pos ∨ a.kind = .named) :
-    (∀ x ∈ itemsFrom sl i l, x.isParam = true) ∧
-    (itemsFrom sl i l).map Item.hasD = l.map fun a => a.dflt.isSome := by
+    (∀ x ∈ itemsFrom c sl i l, x.isParam = true) ∧
+    (itemsFrom c sl i l).map Item.hasD = l.map fun a => a.dflt.isSome := by
   induction l generalizing i with
   | nil => simp [itemsFrom]
   | cons a r ih =>
-    obtain ⟨ann, d, he, hd⟩ := argItem_param sl (i == 0) a (h a (by simp))
+    obtain ⟨ann, d, he, hd⟩ := argItem_param c sl (i == 0) a (h a (by simp))
     obtain ⟨h1, h2⟩ := ih (i + 1) (fun x hx => h x (by simp [hx]))
     constructor
     · intro x hx
@@ -463,20 +463,20 @@ theorem itemsFrom_params (i : Nat) (l : List Arg) (h : ∀ a ∈ l, a.kind = .po
     · simp [itemsFrom, he, Item.hasD, hd, h2]
 
 /-- the round trip, for any name rule `el` -/
-theorem roundtrip_E (s : PySig) (hd : s.DefaultsOk) (hne : s.NoElideE el) (hg : s.GoodDefaults) :
-    parseItems (emitArgs sl false (s.toMypyE el)) = some s.summary := by
-  rw [emit_shape sl el s hne]
-  have hre : s.shape sl el =
-      (itemsFrom sl 0 (s.aPo el) ++ (if s.po.isEmpty then [] else [Item.slash]) ++ itemsFrom sl s.po.length (s.aPp el)) ++
-      (itemsFrom sl (s.po.length + s.pp.length) (s.aVa el) ++ s.starItems ++
-        itemsFrom sl (s.po.length + s.pp.length + (s.aVa el).length) (s.aKw el) ++
-        itemsFrom sl (s.po.length + s.pp.length + (s.aVa el).length + s.kw.length) (s.aKa el)) := by
+theorem roundtrip_E (s : PySig) (hd : s.DefaultsOk) (hne : s.NoElideE el) (hg : s.GoodDefaults c) :
+    parseItems (emitArgs c sl false false (s.toMypyE el)) = some s.summary := by
+  rw [emit_shape c sl el s hne]
+  have hre : s.shape c sl el =
+      (itemsFrom c sl 0 (s.aPo el) ++ (if s.po.isEmpty then [] else [Item.slash]) ++ itemsFrom c sl s.po.length (s.aPp el)) ++
+      (itemsFrom c sl (s.po.length + s.pp.length) (s.aVa el) ++ s.starItems ++
+        itemsFrom c sl (s.po.length + s.pp.length + (s.aVa el).length) (s.aKw el) ++
+        itemsFrom c sl (s.po.length + s.pp.length + (s.aVa el).length + s.kw.length) (s.aKa el)) := by
     simp [PySig.shape, List.append_assoc]
   rw [hre]
   unfold parseItems
-  rw [run_append, run_positional sl el s hd hg]
+  rw [run_append, run_positional c sl el s hd hg]
   simp only [Option.bind_some]
-  obtain ⟨st', hr, hn, ha⟩ := run_tail sl el s hg (s.po.length + s.pp.length)
+  obtain ⟨st', hr, hn, ha⟩ := run_tail c sl el s hg (s.po.length + s.pp.length)
     (s.po.length + s.pp.length + (s.aVa el).length) (s.po.length + s.pp.length + (s.aVa el).length + s.kw.length)
     (if s.po.isEmpty then .pre else .post) ((s.po ++ s.pp).any PParam.hasD)
     (s.po.map (fun p => (p.name, PKind.posOnly, p.hasD)) ++ s.pp.map (fun p => (p.name, PKind.pos, p.hasD)))
@@ -487,21 +487,21 @@ theorem roundtrip_E (s : PySig) (hd : s.DefaultsOk) (hne : s.NoElideE el) (hg : 
 
 /-- the grammar shape, for any name rule `el` -/
 theorem valid_E (s : PySig) (hd : s.DefaultsOk) (hne : s.NoElideE el) :
-    GrammarShape (emitArgs sl false (s.toMypyE el)) := by
-  rw [emit_shape sl el s hne]
+    GrammarShape (emitArgs c sl false false (s.toMypyE el)) := by
+  rw [emit_shape c sl el s hne]
   have hpo : ∀ a ∈ (s.aPo el), a.kind = .pos ∨ a.kind = .named := by
     intro a ha; simp only [PySig.aPo, List.mem_map] at ha; obtain ⟨p, _, rfl⟩ := ha; exact Or.inl rfl
   have hpp : ∀ a ∈ (s.aPp el), a.kind = .pos ∨ a.kind = .named := by
     intro a ha; simp only [PySig.aPp, List.mem_map] at ha; obtain ⟨p, _, rfl⟩ := ha; exact Or.inl rfl
   have hkw : ∀ a ∈ (s.aKw el), a.kind = .pos ∨ a.kind = .named := by
     intro a ha; simp only [PySig.aKw, List.mem_map] at ha; obtain ⟨p, _, rfl⟩ := ha; exact Or.inr rfl
-  obtain ⟨p1, d1⟩ := itemsFrom_params sl 0 (s.aPo el) hpo
-  obtain ⟨p2, d2⟩ := itemsFrom_params sl s.po.length (s.aPp el) hpp
-  obtain ⟨p3, _⟩ := itemsFrom_params sl (s.po.length + s.pp.length + (s.aVa el).length) (s.aKw el) hkw
-  refine ⟨itemsFrom sl 0 (s.aPo el), if s.po.isEmpty then [] else [Item.slash], itemsFrom sl s.po.length (s.aPp el),
-    itemsFrom sl (s.po.length + s.pp.length) (s.aVa el) ++ s.starItems,
-    itemsFrom sl (s.po.length + s.pp.length + (s.aVa el).length) (s.aKw el),
-    itemsFrom sl (s.po.length + s.pp.length + (s.aVa el).length + s.kw.length) (s.aKa el), ?_, ?_, ?_, ?_, ?_, ?_⟩
+  obtain ⟨p1, d1⟩ := itemsFrom_params c sl 0 (s.aPo el) hpo
+  obtain ⟨p2, d2⟩ := itemsFrom_params c sl s.po.length (s.aPp el) hpp
+  obtain ⟨p3, _⟩ := itemsFrom_params c sl (s.po.length + s.pp.length + (s.aVa el).length) (s.aKw el) hkw
+  refine ⟨itemsFrom c sl 0 (s.aPo el), if s.po.isEmpty then [] else [Item.slash], itemsFrom c sl s.po.length (s.aPp el),
+    itemsFrom c sl (s.po.length + s.pp.length) (s.aVa el) ++ s.starItems,
+    itemsFrom c sl (s.po.length + s.pp.length + (s.aVa el).length) (s.aKw el),
+    itemsFrom c sl (s.po.length + s.pp.length + (s.aVa el).length + s.kw.length) (s.aKa el), ?_, ?_, ?_, ?_, ?_, ?_⟩
   · simp [PySig.shape, List.append_assoc]
   · intro x hx
     simp only [List.mem_append] at hx
@@ -515,7 +515,7 @@ theorem valid_E (s : PySig) (hd : s.DefaultsOk) (hne : s.NoElideE el) :
   · cases hv : s.va with
     | some v =>
       right; left
-      obtain ⟨ann, he⟩ := argItem_star sl ((s.po.length + s.pp.length) == 0) (mkVArgE el .star v) rfl rfl
+      obtain ⟨ann, he⟩ := argItem_star c sl ((s.po.length + s.pp.length) == 0) (mkVArgE el .star v) rfl rfl
       exact ⟨v.name, ann, by simp only [PySig.aVa, hv, Option.toList_some, List.map_cons, List.map_nil, itemsFrom, PySig.starItems, Option.isNone_some, Bool.false_and, Bool.false_eq_true, ↓reduceIte, List.append_nil]; exact congrArg (· :: []) he⟩
     | none =>
       cases hq : s.kw with
@@ -525,7 +525,7 @@ theorem valid_E (s : PySig) (hd : s.DefaultsOk) (hne : s.NoElideE el) :
     | none => left; simp [PySig.aKa, hk, itemsFrom]
     | some v =>
       right
-      obtain ⟨ann, he⟩ := argItem_star2 sl
+      obtain ⟨ann, he⟩ := argItem_star2 c sl
         ((s.po.length + s.pp.length + (s.aVa el).length + s.kw.length) == 0) (mkVArgE el .star2 v) rfl rfl
       exact ⟨v.name, ann, by simp only [PySig.aKa, hk, Option.toList_some, List.map_cons, List.map_nil, itemsFrom]; exact congrArg (· :: []) he⟩
   · rw [List.map_append, d1, d2, aPo_hasD el, aPp_hasD el, ← List.map_append]
@@ -536,23 +536,214 @@ theorem valid_E (s : PySig) (hd : s.DefaultsOk) (hne : s.NoElideE el) :
 
 def clearPO (a : Arg) : Arg := { a with posOnly := false }
 
-theorem argItem_clearPO (f : Bool) (a : Arg) : argItem sl f (clearPO a) = argItem sl f a := rfl
+theorem argItem_clearPO (f : Bool) (a : Arg) : argItem c sl f (clearPO a) = argItem c sl f a := rfl
 
-theorem estep_magic (st : ESt) (a : Arg) : estep sl true st a = estep sl false st (clearPO a) := by
+theorem estep_magic (st : ESt) (a : Arg) : estep c sl false true st a = estep c sl false false st (clearPO a) := by
   simp [estep, clearPO, argItem]
 
 theorem fold_magic (args : List Arg) (st : ESt) :
-    args.foldl (estep sl true) st = (args.map clearPO).foldl (estep sl false) st := by
+    args.foldl (estep c sl false true) st = (args.map clearPO).foldl (estep c sl false false) st := by
   induction args generalizing st with
   | nil => rfl
   | cons a r ih => simp only [List.foldl_cons, List.map_cons, estep_magic, ih]
 
-theorem emit_magic (args : List Arg) : emitArgs sl true args = emitArgs sl false (args.map clearPO) := by
+theorem emit_magic (args : List Arg) : emitArgs c sl false true args = emitArgs c sl false false (args.map clearPO) := by
   simp only [emitArgs, fold_magic]
 
 theorem toMypy_clearPO (s : PySig) (h : s.po = []) :
     (s.toMypyE el).map clearPO = s.toMypyE (fun _ => false) := by
   simp only [PySig.toMypyE, h, List.map_nil, List.nil_append, List.map_append, List.map_map]
   rfl
+
+
+/-! ### the repaired `/` rule (`contig = true`): only a contiguous prefix of positional parameters counts -/
+
+/-- what the repaired counter sees: flags outside the maximal prefix of (pos_only ∧ positional) are ignored -/
+def prefixOnly : List Arg → List Arg
+  | [] => []
+  | a :: r => if a.posOnly && a.kind == .pos then a :: prefixOnly r else clearPO a :: r.map clearPO
+
+theorem estep_contig_out (st : ESt) (a : Arg) (h : st.cnt < st.idx) :
+    estep c sl true false st a = estep c sl false false st (clearPO a) := by
+  have hne : (st.cnt == st.idx) = false := by simp; omega
+  simp [estep, clearPO, argItem, hne]
+
+theorem fold_contig_out (args : List Arg) (st : ESt) (h : st.cnt < st.idx) :
+    args.foldl (estep c sl true false) st = (args.map clearPO).foldl (estep c sl false false) st := by
+  induction args generalizing st with
+  | nil => rfl
+  | cons a r ih =>
+    simp only [List.foldl_cons, List.map_cons, estep_contig_out c sl st a h]
+    apply ih
+    simp [estep, clearPO]; omega
+
+theorem fold_contig_in (args : List Arg) (st : ESt) (h : st.cnt = st.idx) :
+    args.foldl (estep c sl true false) st = (prefixOnly args).foldl (estep c sl false false) st := by
+  induction args generalizing st with
+  | nil => rfl
+  | cons a r ih =>
+    by_cases hc : (a.posOnly && a.kind == .pos) = true
+    · simp only [prefixOnly, hc, ↓reduceIte, List.foldl_cons]
+      have hstep : estep c sl true false st a = estep c sl false false st a := by
+        simp only [Bool.and_eq_true] at hc
+        simp [estep, hc.1, hc.2, h]
+      rw [hstep]
+      apply ih
+      simp only [Bool.and_eq_true] at hc
+      simp [estep, hc.1, h]
+    · have hc' : (a.posOnly && a.kind == .pos) = false := by simpa using hc
+      simp only [prefixOnly, hc', Bool.false_eq_true, ↓reduceIte, List.foldl_cons]
+      have hstep : estep c sl true false st a = estep c sl false false st (clearPO a) := by
+        have : (a.posOnly && (a.kind == AKind.pos && st.cnt == st.idx)) = false := by
+          rw [← Bool.and_assoc, hc', Bool.false_and]
+        simp [estep, clearPO, argItem, this]
+      rw [hstep]
+      apply fold_contig_out
+      simp [estep, clearPO]; omega
+
+theorem emit_contig (args : List Arg) :
+    emitArgs c sl true false args = emitArgs c sl false false (prefixOnly args) := by
+  simp only [emitArgs, fold_contig_in c sl args { out := [], cnt := 0, idx := 0 } rfl]
+
+theorem estep_contig_magic (st : ESt) (a : Arg) : estep c sl true true st a = estep c sl false true st a := by
+  simp [estep]
+
+theorem emit_contig_magic (args : List Arg) : emitArgs c sl true true args = emitArgs c sl false true args := by
+  have : ∀ (st : ESt), args.foldl (estep c sl true true) st = args.foldl (estep c sl false true) st := by
+    induction args with
+    | nil => intro st; rfl
+    | cons a r ih => intro st; simp only [List.foldl_cons, estep_contig_magic, ih]
+  simp only [emitArgs, this]
+
+theorem prefixOnly_append_all (l1 l2 : List Arg) (h : ∀ a ∈ l1, a.posOnly = true ∧ a.kind = .pos) :
+    prefixOnly (l1 ++ l2) = l1 ++ prefixOnly l2 := by
+  induction l1 with
+  | nil => rfl
+  | cons a r ih =>
+    obtain ⟨h1, h2⟩ := h a (by simp)
+    simp only [List.cons_append, prefixOnly, h1, h2, beq_self_eq_true, Bool.and_self, ↓reduceIte]
+    rw [ih (fun x hx => h x (by simp [hx]))]
+
+theorem prefixOnly_stop (l : List Arg) (h : ∀ a, l.head? = some a → (a.posOnly && a.kind == .pos) = false) :
+    prefixOnly l = l.map clearPO := by
+  cases l with
+  | nil => rfl
+  | cons a r => simp [prefixOnly, h a rfl]
+
+theorem elidedPrefix_le (l : List PParam) : elidedPrefix l ≤ l.length := by
+  induction l with
+  | nil => simp [elidedPrefix]
+  | cons p r ih => simp only [elidedPrefix]; split <;> simp <;> omega
+
+theorem take_elided (l : List PParam) : ∀ p ∈ l.take (elidedPrefix l), elide p.name = true := by
+  induction l with
+  | nil => intro p hp; simp [elidedPrefix] at hp
+  | cons q r ih =>
+    intro p hp
+    simp only [elidedPrefix] at hp
+    split at hp
+    · rename_i hq
+      simp only [List.take_succ_cons, List.mem_cons] at hp
+      rcases hp with rfl | hp
+      · exact hq
+      · exact ih p hp
+    · simp at hp
+
+theorem drop_head_not_elided (l : List PParam) :
+    ∀ p, (l.drop (elidedPrefix l)).head? = some p → elide p.name = false := by
+  induction l with
+  | nil => intro p hp; simp [elidedPrefix] at hp
+  | cons q r ih =>
+    intro p hp
+    simp only [elidedPrefix] at hp
+    split at hp
+    · simp only [List.drop_succ_cons] at hp; exact ih p hp
+    · rename_i hq
+      simp only [List.drop_zero, List.head?_cons, Option.some.injEq] at hp
+      subst hp; simpa using hq
+
+/-- the repaired counter on what mypy's parser produces = the as-found counter on the PEP 484-normalised
+    signature with the name rule switched off -/
+theorem prefixOnly_toMypy (s : PySig) :
+    prefixOnly (s.toMypyE elide) = s.normalize.toMypyE (fun _ => false) := by
+  have hsplit : s.pp = s.pp.take (elidedPrefix s.pp) ++ s.pp.drop (elidedPrefix s.pp) :=
+    (List.take_append_drop _ _).symm
+  have hL : s.toMypyE elide =
+      (s.po.map (mkArgE elide .pos true) ++ (s.pp.take (elidedPrefix s.pp)).map (mkArgE elide .pos false)) ++
+      ((s.pp.drop (elidedPrefix s.pp)).map (mkArgE elide .pos false) ++ s.va.toList.map (mkVArgE elide .star) ++
+        s.kw.map (mkArgE elide .named false) ++ s.ka.toList.map (mkVArgE elide .star2)) := by
+    have hm : s.pp.map (mkArgE elide .pos false) =
+        (s.pp.take (elidedPrefix s.pp)).map (mkArgE elide .pos false) ++
+        (s.pp.drop (elidedPrefix s.pp)).map (mkArgE elide .pos false) := by
+      rw [← List.map_append, List.take_append_drop]
+    simp only [PySig.toMypyE]
+    rw [hm]
+    simp only [List.append_assoc]
+  rw [hL, prefixOnly_append_all]
+  · rw [prefixOnly_stop]
+    · -- both sides, segment by segment
+      have e1 : (s.pp.take (elidedPrefix s.pp)).map (mkArgE elide .pos false) =
+          (s.pp.take (elidedPrefix s.pp)).map (mkArgE (fun _ => false) .pos true) := by
+        apply List.map_congr_left
+        intro p hp
+        simp [mkArgE, take_elided s.pp p hp]
+      have e0 : s.po.map (mkArgE elide .pos true) = s.po.map (mkArgE (fun _ => false) .pos true) := by
+        apply List.map_congr_left; intro p _; simp [mkArgE]
+      rw [e1, e0]
+      simp only [PySig.toMypyE, PySig.normalize, List.map_append, List.map_map, List.append_assoc]
+      rfl
+    · intro a ha
+      cases hd : s.pp.drop (elidedPrefix s.pp) with
+      | cons p r =>
+        rw [hd] at ha
+        simp only [List.map_cons, List.cons_append, List.head?_cons, Option.some.injEq] at ha
+        subst ha
+        have := drop_head_not_elided s.pp p (by rw [hd]; rfl)
+        simp [mkArgE, this]
+      | nil =>
+        rw [hd] at ha
+        cases hv : s.va with
+        | some v => simp [hv] at ha; subst ha; simp [mkVArgE]
+        | none =>
+          cases hk : s.kw with
+          | cons p r => simp [hv, hk] at ha; subst ha; simp [mkArgE]
+          | nil =>
+            cases hka : s.ka with
+            | some v => simp [hv, hk, hka] at ha; subst ha; simp [mkVArgE]
+            | none => simp [hv, hk, hka] at ha
+  · intro a ha
+    simp only [List.mem_append, List.mem_map] at ha
+    rcases ha with ⟨p, _, rfl⟩ | ⟨p, hp, rfl⟩
+    · simp [mkArgE]
+    · simp [mkArgE, take_elided s.pp p hp]
+
+theorem normalize_positional (s : PySig) : s.normalize.po ++ s.normalize.pp = s.po ++ s.pp := by
+  simp [PySig.normalize, List.append_assoc]
+
+theorem normalize_noElide (s : PySig) : PySig.NoElideE (fun _ => false) s.normalize := by
+  simp [PySig.NoElideE]
+
+theorem normalize_of_noElide (s : PySig) (h : s.NoElide) : s.normalize = s := by
+  have h0 : elidedPrefix s.pp = 0 := by
+    cases hp : s.pp with
+    | nil => rfl
+    | cons p r => simp [elidedPrefix, h.1 p (by simp [hp])]
+  cases s
+  simp_all [PySig.normalize]
+
+theorem goodDefaults_normalize (s : PySig) (hg : s.GoodDefaults c) : s.normalize.GoodDefaults c := by
+  intro p hp d hd
+  apply hg p _ d hd
+  simp only [PySig.normalize, List.mem_append] at hp ⊢
+  rcases hp with ((hp | hp) | hp) | hp
+  · exact Or.inl (Or.inl hp)
+  · exact Or.inl (Or.inr (List.mem_of_mem_take hp))
+  · exact Or.inl (Or.inr (List.mem_of_mem_drop hp))
+  · exact Or.inr hp
+
+theorem defaultsOk_normalize (s : PySig) (hd : s.DefaultsOk) : s.normalize.DefaultsOk := by
+  unfold PySig.DefaultsOk at hd ⊢
+  rw [normalize_positional]; exact hd
+
 
 end StubSig
